@@ -103,7 +103,8 @@ func evalC12(c *Ctx, op string, b []byte, canonical bool) error {
 		return nil
 	}
 	if op == "decode_encode" {
-		// the image lemma of Props/C12.v, measured: is the decoded message in the domain of the fixed-point theorem?
+		// cross-check of the image theorem (Thm/Image.v decode_image) against the implementation: the decoded value, as observed
+		// on the Go side, is tested with the extracted decision procedure of the (strict) domain
 		if dom, err := c.M.Ask("(in_domain " + m1 + ")"); err != nil {
 			return err
 		} else if dom == "1" {
